@@ -1,12 +1,13 @@
 (* Extract/D07.v — text interpreter of the C07 send-path models and the
    reference decoder.  One case line per emitted frame:
-     KIND hostmac hostip4 hostlla routermac routerip4 mtu  args...  seed
+     KIND hostmac hostip4 hostlla routermac routerip4 mtu  args...  [seed]
    model column  = frame(s) the model emits (hex, "," separated; "none"; "panic")
    spec column   = the same text when the frame satisfies the well-formedness
                    predicate of the path, otherwise "ill-formed:<path>"
    key column    = recorded defect class when the frame is ill-formed in exactly
                    the recorded way, else "-" *)
-From PV Require Import Base.Text Model.SendBase Model.Send Spec.SendRef Spec.SendKnown.
+From PV Require Import Base.Text Model.SendBase Model.Send Model.SendNdp Model.SendUdp
+  Spec.SendRef Spec.SendRefUdp Spec.SendKnown.
 Open Scope string_scope.
 Open Scope N_scope.
 
@@ -17,11 +18,18 @@ Definition show_frames (l : list bytes) : string :=
   match l with [] => "none" | _ => join "," (map tok_of_bytes l) end.
 Definition show_out (r : res (list bytes)) : string := show_res show_frames r.
 
-(* verdict of a single-frame path: wf is the path's predicate, known the defect classifier *)
-Definition verdict (path : string) (r : res (list bytes)) (wf : bytes -> bool) (known : bytes -> string) : string :=
+Fixpoint first_key (l : list (string * (bytes -> bool))) (fr : bytes) : string :=
+  match l with
+  | [] => "-"
+  | (k, p) :: r => if p fr then k else first_key r fr
+  end.
+
+(* verdict of a single-frame path: wf is the path's predicate, known the defect classifiers *)
+Definition verdict (path : string) (r : res (list bytes)) (wf : bytes -> bool)
+                   (known : list (string * (bytes -> bool))) : string :=
   match r with
   | Ok [fr] => if wf fr then out3 (show_out r) (show_out r) "-"
-               else out3 (show_out r) ("ill-formed:" ++ path) (known fr)
+               else out3 (show_out r) ("ill-formed:" ++ path) (first_key known fr)
   | Ok [] => out3 "none" "-" "-"
   | _ => out3 (show_out r) ("ill-formed:" ++ path) "-"
   end.
@@ -41,20 +49,72 @@ Fixpoint all_bytes (l : list string) : option (list bytes) :=
   | [] => Some []
   | x :: r => match bytes_of_tok x, all_bytes r with Some b, Some bs => Some (b :: bs) | _, _ => None end
   end.
+Fixpoint all_N (l : list string) : option (list N) :=
+  match l with
+  | [] => Some []
+  | x :: r => match N_of_dec x, all_N r with Some b, Some bs => Some (b :: bs) | _, _ => None end
+  end.
+
+(* "-" = absent *)
+Definition opt_bytes (s : string) : option (option bytes) :=
+  if String.eqb s "-" then Some None else option_map Some (bytes_of_hex s).
+
+(* prefixes: plen/hex;plen/hex  |  "-" *)
+Fixpoint parse_prefixes (l : list string) : option (list (N * bytes)) :=
+  match l with
+  | [] => Some []
+  | x :: r => match Text.split "/"%char x with
+              | [pl; h] => match N_of_dec pl, bytes_of_tok h, parse_prefixes r with
+                           | Some pl, Some h, Some t => Some ((pl, h) :: t)
+                           | _, _, _ => None
+                           end
+              | _ => None
+              end
+  end.
+Definition prefixes_of_tok (s : string) : option (list (N * bytes)) :=
+  if String.eqb s "-" then Some [] else parse_prefixes (Text.split ";"%char s).
+(* rdnss: lifetime/srv/srv | "-" ; lifetime/ alone = no server *)
+Definition rdnss_of_tok (s : string) : option (option (N * list bytes)) :=
+  if String.eqb s "-" then Some None else
+  match Text.split "/"%char s with
+  | lt :: srv => match N_of_dec lt, all_bytes (filter (fun x => negb (String.eqb x "")) srv) with
+                 | Some lt, Some srv => Some (Some (lt, srv))
+                 | _, _ => None
+                 end
+  | [] => None
+  end.
+Definition codes_of_tok (s : string) : option (list N) := all_N (Text.split "/"%char s).
+
+Definition str_decline : bytes := [110;101;116;102;105;108;116;101;114;32;100;101;99;108;105;110;101].
+Definition str_release : bytes := [110;101;116;102;105;108;116;101;114;32;114;101;108;101;97;115;101].
+
+(* options in the given order; None when the order is not a permutation of the expected set *)
+Definition opts_in_order (set : list (N * bytes)) (order : list N) : option (list (N * bytes)) :=
+  if negb (Nat.eqb (List.length set) (List.length order)) then None else
+  if negb (forallb (fun o => existsb (fun c => c =? fst o) order) set) then None else
+  let l := map (fun c => match find_opt c set with Some v => Some (c, v) | None => None end) order in
+  if forallb (fun x => match x with Some _ => true | None => false end) l
+  then Some (concat (map (fun x => match x with Some o => [o] | None => [] end) l)) else None.
+
+Definition or0 (a : option bytes) : bytes := match a with Some x => x | None => [0;0;0;0] end.
+Definition orE (a : option bytes) : bytes := match a with Some x => x | None => [] end.
+
+Definition msearch_lf (pl : bytes) : bool :=
+  (nth 0 pl 0 =? 10) && beq (sub pl 1 19) (firstn 19 msearch_line) && (nth 20 pl 0 =? 10).
 
 Definition dispatch (kind : string) (args : list string) : string :=
   match parse_cfg args with
   | None => BADARGS
   | Some (c, rest) =>
+    let hm := host_mac c in
     if String.eqb kind "purgearp" then
       match rest with
       | [ip; seed] =>
         match bytes_of_tok ip, N_of_dec seed with
         | Some ip, Some seed =>
             verdict "arp-request" (send_purge_arp c ip (poison seed))
-              (wf_arp (host_mac c) eth_bcast 1 (host_mac c) (host_ip4 c) eth_bcast ip)
-              (fun fr => if known_arpreq_hdr (host_mac c) eth_bcast 1 (host_mac c) (host_ip4 c) eth_bcast ip fr
-                         then "arpreq-hlen-plen-in-ether-header" else "-")
+              (wf_arp hm eth_bcast 1 hm (host_ip4 c) eth_bcast ip)
+              [("arpreq-hlen-plen-in-ether-header", known_arpreq_hdr hm eth_bcast 1 hm (host_ip4 c) eth_bcast ip)]
         | _, _ => BADARGS
         end
       | _ => BADARGS
@@ -66,10 +126,10 @@ Definition dispatch (kind : string) (args : list string) : string :=
         | Some [sm; si; dm; di], Some id, Some sq, Some seed =>
             if String.eqb kind "echo4" then
               verdict "echo4" (send_echo4 c (sm, si) (dm, di) id sq (poison seed))
-                (wf_echo4 (host_mac c) dm si di id sq) (fun _ => "-")
+                (wf_echo4 hm dm si di id sq) []
             else
               verdict "echo6" (send_echo6 c (sm, si) (dm, di) id sq (poison seed))
-                (wf_echo6 (host_mac c) dm si di id sq) (fun _ => "-")
+                (wf_echo6 hm dm si di id sq) []
         | _, _, _, _ => BADARGS
         end
       | _ => BADARGS
@@ -80,8 +140,7 @@ Definition dispatch (kind : string) (args : list string) : string :=
         match all_bytes [sm; si; dm; di; tg], N_of_dec seed with
         | Some [sm; si; dm; di; tg], Some seed =>
             verdict "ns" (send_ns c (sm, si) (dm, di) tg (poison seed))
-              (wf_ns (host_mac c) dm si di tg)
-              (fun fr => if known_ns_opt_type (host_mac c) dm si di tg fr then "ns-option-type-2" else "-")
+              (wf_ns hm dm si di tg) []
         | _, _ => BADARGS
         end
       | _ => BADARGS
@@ -92,8 +151,223 @@ Definition dispatch (kind : string) (args : list string) : string :=
         match all_bytes [sm; si; dm; di; tm; ti], N_of_dec seed with
         | Some [sm; si; dm; di; tm; ti], Some seed =>
             verdict "na" (send_na c (sm, si) (dm, di) (tm, ti) (poison seed))
-              (wf_na (host_mac c) dm si di 32 ti tm) (fun _ => "-")
+              (wf_na hm dm si di 32 ti tm) []
         | _, _ => BADARGS
+        end
+      | _ => BADARGS
+      end
+    else if String.eqb kind "rs" then
+      match rest with
+      | [seed] =>
+        match N_of_dec seed with
+        | Some seed =>
+            verdict "rs" (send_rs c (poison seed)) (wf_rs hm (as16 (host_lla c)))
+              [("rs-without-icmp6-header-to-ff02-1", known_rs_noheader (a_ip ip6_all_nodes_addr) hm (as16 (host_lla c)));
+               ("rs-without-icmp6-header", known_rs_noheader all_routers6 hm (as16 (host_lla c)))]
+        | None => BADARGS
+        end
+      | _ => BADARGS
+      end
+    else if String.eqb kind "ra" then
+      match rest with
+      | [dm; di; rd; pf; seed] =>
+        match all_bytes [dm; di], rdnss_of_tok rd, prefixes_of_tok pf, N_of_dec seed with
+        | Some [dm; di], Some rd, Some pf, Some seed =>
+            verdict "ra" (send_ra c pf rd (dm, di) (poison seed))
+              (wf_ra hm (as16 (host_lla c)) (mtu c) pf rd dm di)
+              [("ra-without-icmp6-header", known_ra_noheader hm (as16 (host_lla c)) (mtu c) pf rd dm di)]
+        | _, _, _, _ => BADARGS
+        end
+      | _ => BADARGS
+      end
+    else if String.eqb kind "purge6" then
+      match rest with
+      | [tm; ti; id; seed] =>
+        match all_bytes [tm; ti], N_of_dec id, N_of_dec seed with
+        | Some [tm; ti], Some id, Some seed =>
+            let sn := solicited_node ti in
+            if ll_unicast ti then
+              verdict "purge-ns" (send_purge_ip6 c (tm, ti) id (poison seed))
+                (fun fr => wf_ns hm (mac_of_mcast6 (a_ip sn)) (host_lla c) (a_ip sn) ti fr) []
+            else
+              verdict "purge-echo6" (send_purge_ip6 c (tm, ti) id (poison seed))
+                (wf_echo6 hm tm (host_lla c) ti id 0) []
+        | _, _, _ => BADARGS
+        end
+      | _ => BADARGS
+      end
+    else if String.eqb kind "arpraw" || String.eqb kind "arpreply" then
+      match rest with
+      | [dst; sm; si; tm; ti; seed] =>
+        match all_bytes [dst; sm; si; tm; ti], N_of_dec seed with
+        | Some [dst; sm; si; tm; ti], Some seed =>
+            let op := if String.eqb kind "arpraw" then 1 else 2 in
+            verdict kind (send_arp c op dst (sm, si) (tm, ti) (poison seed)) (wf_arp hm dst op sm si tm ti) []
+        | _, _ => BADARGS
+        end
+      | _ => BADARGS
+      end
+    else if String.eqb kind "arpreq" || String.eqb kind "arpprobe" then
+      match rest with
+      | [ip; seed] =>
+        match bytes_of_tok ip, N_of_dec seed with
+        | Some ip, Some seed =>
+            if String.eqb kind "arpreq" then
+              verdict kind (arp_request c ip (poison seed)) (wf_arp hm eth_bcast 1 hm (host_ip4 c) eth_bcast ip) []
+            else
+              (* RFC 5227 probe: sender IP 0.0.0.0, target hardware address zero *)
+              verdict kind (arp_probe c ip (poison seed)) (wf_arp hm eth_bcast 1 hm [0;0;0;0] eth_zero ip) []
+        | _, _ => BADARGS
+        end
+      | _ => BADARGS
+      end
+    else if String.eqb kind "arpreqto" || String.eqb kind "arpannounce" || String.eqb kind "huntstart" || String.eqb kind "huntstop"
+            || String.eqb kind "arpspoofreply" then
+      match rest with
+      | [m; ip; seed] =>
+        match bytes_of_tok m, bytes_of_tok ip, N_of_dec seed with
+        | Some m, Some ip, Some seed =>
+            let rm := router_mac c in let rip := router_ip4 c in
+            if String.eqb kind "arpreqto" then
+              verdict kind (arp_request_to c m ip (poison seed)) (wf_arp hm m 1 hm (host_ip4 c) eth_bcast ip) []
+            else if String.eqb kind "arpannounce" then
+              verdict kind (arp_announce_to c m ip (poison seed)) (wf_arp hm m 1 hm ip eth_bcast ip) []
+            else if String.eqb kind "huntstart" then
+              (* spoofLoop: announce the router IP as ours to the hunted host (m, ip) *)
+              verdict kind (arp_announce_to c m rip (poison seed)) (wf_arp hm m 1 hm rip eth_bcast rip) []
+            else if String.eqb kind "huntstop" then
+              (* end of hunt: request carrying the real router binding, unicast to the host *)
+              verdict kind (arp_request_raw c m (rm, rip) (rm, rip) (poison seed)) (wf_arp hm m 1 rm rip rm rip) []
+            else
+              (* ProcessPacket: hunted client (m, ip) asks for the router: reply "router is at host MAC" *)
+              verdict kind (arp_reply c m (hm, rip) (m, ip) (poison seed)) (wf_arp hm m 2 hm rip m ip) []
+        | _, _, _ => BADARGS
+        end
+      | _ => BADARGS
+      end
+    else if String.eqb kind "dhcpreply" then
+      match rest with
+      | [dm; di; pl; seed] =>
+        match all_bytes [dm; di; pl], N_of_dec seed with
+        | Some [dm; di; pl], Some seed =>
+            verdict kind (send_dhcp4_reply c (dm, di) pl (poison seed))
+              (wf_udp4 hm dm (host_ip4 c) di 67 68 (fun p => beq p pl && wf_dhcp_reply p) true) []
+        | _, _ => BADARGS
+        end
+      | _ => BADARGS
+      end
+    else if String.eqb kind "discover" then
+      match rest with
+      | [ch; ci; xid; name; order; seed] =>
+        match opt_bytes ch, opt_bytes ci, opt_bytes xid, bytes_of_tok name, codes_of_tok order, N_of_dec seed with
+        | Some ch, Some ci, Some xid, Some name, Some order, Some seed =>
+            let set := ((match name with [] => [] | _ => [(12, name)] end) ++ [(55, str_discover_prl); (53, [1])])%list in
+            match opts_in_order set order with
+            | None => BADARGS
+            | Some opts =>
+                let wf ciaddr := wf_udp4 hm (router_mac c) (host_ip4 c) (router_ip4 c) 68 67
+                                   (wf_dhcp_client (orE ch) ciaddr xid set) false in
+                verdict kind (send_discover c ch (orE ci) xid opts (poison seed)) (wf (or0 ci))
+                  [("discover-unset-ciaddr-keeps-stale-buffer-bytes",
+                    fun fr => match ci with None => wf (sub fr 54 4) fr | Some _ => false end)]
+            end
+        | _, _, _, _, _, _ => BADARGS
+        end
+      | _ => BADARGS
+      end
+    else if String.eqb kind "decline" || String.eqb kind "release" then
+      match rest with
+      | [ch; cid; sip; cip; xid; order; seed] =>
+        match all_bytes [ch; cid; sip; cip; xid], codes_of_tok order, N_of_dec seed with
+        | Some [ch; cid; sip; cip; xid], Some order, Some seed =>
+            let decl := String.eqb kind "decline" in
+            let set := if decl then [(61, cid); (54, sip); (56, str_decline); (50, cip); (53, [4])]
+                       else [(61, cid); (54, sip); (56, str_release); (53, [7])] in
+            (* client.go:85 forceRelease builds its options but passes nil to sendDeclineReleasePacket *)
+            let sent := if decl then set else [(53, [7])] in
+            let ciaddr := if decl then [0;0;0;0] else cip in
+            match opts_in_order sent order with
+            | None => BADARGS
+            | Some opts =>
+                let wf want := wf_udp4 hm (router_mac c) (host_ip4 c) (router_ip4 c) 68 67
+                                 (wf_dhcp_client ch ciaddr (Some xid) want) false in
+                verdict kind (send_decline_release c (Some ch) ciaddr xid opts (poison seed) (poison seed))
+                  (wf set) [("dhcp-release-without-client-and-server-id", fun fr => negb decl && wf sent fr)]
+            end
+        | _, _, _ => BADARGS
+        end
+      | _ => BADARGS
+      end
+    else if String.eqb kind "mdnsq" || String.eqb kind "llmnrq" then
+      match rest with
+      | [name] =>
+        match bytes_of_tok name with
+        | Some name =>
+            let labels := split_dots name [] in
+            if String.eqb kind "mdnsq" then
+              let dip := [224;0;0;251] in
+              let wf dm own := wf_udp4 hm dm (host_ip4 c) dip 5353 5353 (wf_dns_query None labels 255 255) own in
+              verdict kind (send_mdns_query c name) (wf (mac_of_mcast4 dip) true)
+                [("ip4-multicast-sent-to-ethernet-broadcast", wf eth_bcast false)]
+            else
+              (* RFC 4795: LLMNR group 224.0.0.252, port 5355 *)
+              let wf dm dip own := wf_udp4 hm dm (host_ip4 c) dip 5355 5355 (wf_dns_query None labels 255 255) own in
+              verdict kind (send_llmnr_query c name) (wf (mac_of_mcast4 [224;0;0;252]) [224;0;0;252] true)
+                [("llmnr-query-to-224.0.0.251-ethernet-broadcast", wf eth_bcast [224;0;0;251] false)]
+        | None => BADARGS
+        end
+      | _ => BADARGS
+      end
+    else if String.eqb kind "sleepproxy" then
+      match rest with
+      | [sm; si; dm; di; port; pl] =>
+        match all_bytes [sm; si; dm; di; pl], N_of_dec port with
+        | Some [sm; si; dm; di; pl], Some port =>
+            if is4 si then
+              verdict kind (send_mdns c pl (sm, si) (dm, di) port)
+                (wf_udp4 hm dm si di port port (beq pl) false) []
+            else
+              verdict kind (send_mdns c pl (sm, si) (dm, di) port)
+                (wf_udp6 hm dm (as16 si) (as16 di) port port (beq pl))
+                [("udp6-checksum-zero", wf_udp6_nocks hm dm (as16 si) (as16 di) port port (beq pl))]
+        | _, _ => BADARGS
+        end
+      | _ => BADARGS
+      end
+    else if String.eqb kind "nbnsq" then
+      match rest with
+      | [sm; si; dm; di; sq; name; seed] =>
+        match all_bytes [sm; si; dm; di; name], N_of_dec sq, N_of_dec seed with
+        | Some [sm; si; dm; di; name], Some sq, Some seed =>
+            let wf h := wf_udp4 h dm si di 137 137 (wf_dns_query (Some sq) [nb_label name] 32 1) false in
+            verdict kind (send_nbns_query (sm, si) (dm, di) sq name (poison seed)) (wf hm)
+              [("nbns-ether-src-is-caller-mac", fun fr => negb (beq sm hm) && wf sm fr)]
+        | _, _, _ => BADARGS
+        end
+      | _ => BADARGS
+      end
+    else if String.eqb kind "nbnsstat" then
+      match rest with
+      | [sq; seed] =>
+        match N_of_dec sq, N_of_dec seed with
+        | Some sq, Some seed =>
+            verdict kind (send_nbns_node_status c sq (poison seed))
+              (wf_udp4 hm eth_bcast (host_ip4 c) [255;255;255;255] 137 137 (wf_dns_query (Some sq) [nb_label [42]] 33 1) true) []
+        | _, _ => BADARGS
+        end
+      | _ => BADARGS
+      end
+    else if String.eqb kind "ssdp" then
+      match rest with
+      | [seed] =>
+        match N_of_dec seed with
+        | Some seed =>
+            let dip := [239;255;255;250] in
+            verdict kind (send_ssdp_search c (poison seed))
+              (wf_udp4 hm (mac_of_mcast4 dip) (host_ip4 c) dip 1900 1900 wf_msearch true)
+              [("ssdp-msearch-lf-line-ends-ethernet-broadcast",
+                wf_udp4 hm eth_bcast (host_ip4 c) dip 1900 1900 msearch_lf false)]
+        | None => BADARGS
         end
       | _ => BADARGS
       end
